@@ -50,7 +50,7 @@ def run(ctx):
             fail("corr", "additivity", "corr_C20: model width (advances + kerning) differs from get_string_width at the reference size",
                  font=font, text=text, model_w64=w64, impl_px=px)
             continue
-        size = r.choice([4, 6, 7.5, 9, 10.5, 12, 14, 18, 24, 36, 48])
+        size = r.choice([4, 4.25, 4.3, 5.2, 6, 6.7, 7.5, 8.75, 9, 10.25, 10.5, 11.1, 12, 13.3, 14, 18, 22.75, 24, 36, 48])
         dpi = r.choice([36, 72, 96, 150, 300, 600])
         w_in = get_string_width(text, font=font, font_size=size, unit="in", dpi=dpi)
         w_mm = get_string_width(text, font=font, font_size=size, unit="mm", dpi=dpi)
@@ -90,7 +90,7 @@ def run(ctx):
             fail("holds", "reject", f"unsupported {bad} raised {type(e).__name__} instead of ValueError")
     coverage = {
         "evaluations": len(trials) + 4, "distinct_nontrivial": len({(f, t) for _, f, t in trials if t}),
-        "rule": "random strings over printable ASCII / Latin-1 / Greek, fonts 1..10 by number and by name, sizes 4..48 incl. fractional, three units, dpi 36..600; "
+        "rule": "random strings over printable ASCII / Latin-1 / Greek, fonts 1..10 by number and by name, sizes 4..48 incl. half-, quarter- and tenth-point values, three units, dpi 36..600; "
                 "distinct = different (font, text)",
         "samples": samples, "outcomes": dict(stats), "traces_validated_against_impl": stats["ok"],
     }
